@@ -265,7 +265,9 @@ impl<T: BitRead> PackedRead for T {
             // 16.11
             (
                 self.read_length_determinant(lower_bound_size, upper_bound_size)?,
-                true,
+                // only the unconstrained form of the length determinant can be fragmented
+                !(const_is_some!(upper_bound_size)
+                    && (upper_bound < LENGTH_64K || lower_bound_size == upper_bound_size)),
             )
         };
 
@@ -336,7 +338,9 @@ impl<T: BitRead> PackedRead for T {
             // 17.8
             (
                 self.read_length_determinant(lower_bound_size, upper_bound_size)?,
-                true,
+                // only the unconstrained form of the length determinant can be fragmented
+                !(const_is_some!(upper_bound_size)
+                    && (upper_bound < LENGTH_64K || lower_bound_size == upper_bound_size)),
             )
         };
 
